@@ -37,6 +37,11 @@ Theorem append_int_spec : forall b spare n, min_i64 <= n <= max_i64 ->
 Proof. exact append_int_spec_proof. Qed.
 Print Assumptions append_int_spec.
 
+(* LenUint n is the number of decimal digits of n, for every uint64 (the 19-way switch of int.go). *)
+Theorem len_uint_spec : forall n, 0 <= n < two64 -> len_uint n = len (decimal n).
+Proof. exact len_uint_decimal. Qed.
+Print Assumptions len_uint_spec.
+
 Theorem decimal_is_canonical : forall n,
   (0 <= n -> all_digits (decimal n) /\ dec_value (decimal n) = n /\
              (n = 0 /\ decimal n = [48] \/ exists c t, decimal n = c :: t /\ c <> 48)) /\
